@@ -162,7 +162,8 @@ static int encode_special_opd(struct instr *instrc, int m, int i) {
         instrc->hex.rex |= rex_w;
       reg_r++;
     }
-    if ((MODE_MASK & instrc->opd[m].reg) == ext64)
+    if ((MODE_MASK & instrc->opd[m].reg) == ext64 ||
+        (MODE_MASK & instrc->opd[m].reg) == ext16)
       instrc->hex.rex |= rex_ + rex_b;
     FAIL_IF(get_reg(instrc, &instrc->opd[m], reg_r));
     // extended (r8-r15) base and index registers need REX.B and REX.X
